@@ -290,6 +290,10 @@ func C03(c *core.Ctx) {
 		}
 	}
 	// R6: rate amounts are taken of the stored base
+	c.Rule("C03-R7", "no totals member changes after something was computed from it", 5)
+	c03TotalsOrder(c, "C03-R7")
+	c.Rule("C03-R8", "the calculation runs under the document's own rounding rule and included category whenever set", 1)
+	c03RuleSelection(c, "C03-R8")
 	c.Rule("C03-R6", "each rate row's amount and surcharge are Percent.Of(the row's stored Base)", 2)
 	rateAmountFromBase(c, "C03-R6")
 	// R3
@@ -427,4 +431,233 @@ func roundsVia(p *core.Program, fd *core.FuncDecl, depth int) bool {
 		return true
 	})
 	return ok && n > 0
+}
+
+// c03TotalsOrder — C03-R7 (shared with C01): in the document calculation no
+// member of the totals is given another value after a different member, or a
+// value handed to a callee, has been computed from it. `due = payable −
+// advances` followed by `payable += rounding` presents a due amount that is not
+// the presented payable minus the presented advances. Updates of a member from
+// itself (`t.Total = t.Total.Add(x)`) are the member's own construction and are
+// not reads in this sense; the presentation rounding (`t.round`) is a method
+// of its own and rescales every member alike.
+func c03TotalsOrder(c *core.Ctx, rule string) {
+	p := c.P
+	fd := p.Func("bill", "", "calculate")
+	if fd == nil {
+		c.Ob(rule, "UNRESOLVED:bill.calculate", token.NoPos, false, "function not found")
+		return
+	}
+	info := fd.Pkg.TypesInfo
+	totals := p.Named("bill", "Totals")
+	isTotalsField := func(e ast.Expr) *types.Var {
+		e = ast.Unparen(e)
+		if st, ok := e.(*ast.StarExpr); ok {
+			e = ast.Unparen(st.X)
+		}
+		se, ok := e.(*ast.SelectorExpr)
+		if !ok {
+			return nil
+		}
+		f := core.FieldOf(info, se)
+		if f == nil || fieldOwner(info, se) != totals {
+			return nil
+		}
+		if !strings.Contains(core.TypeString(f.Type()), "num.Amount") {
+			return nil
+		}
+		return f
+	}
+	lastWrite := map[*types.Var]token.Pos{}
+	ast.Inspect(fd.Decl.Body, func(n ast.Node) bool {
+		if as, ok := n.(*ast.AssignStmt); ok {
+			for _, l := range as.Lhs {
+				if f := isTotalsField(l); f != nil && as.Pos() > lastWrite[f] {
+					lastWrite[f] = as.Pos()
+				}
+			}
+		}
+		return true
+	})
+	n := 0
+	reported := map[string]bool{}
+	var stack []ast.Node
+	ast.Inspect(fd.Decl.Body, func(m ast.Node) bool {
+		if m == nil {
+			stack = stack[:len(stack)-1]
+			return true
+		}
+		stack = append(stack, m)
+		e, ok := m.(ast.Expr)
+		if !ok {
+			return true
+		}
+		f := isTotalsField(e)
+		if f == nil {
+			return true
+		}
+		// the enclosing statement
+		var stmt ast.Stmt
+		for i := len(stack) - 1; i >= 0; i-- {
+			if s, ok := stack[i].(ast.Stmt); ok {
+				stmt = s
+				break
+			}
+		}
+		as, isAssign := stmt.(*ast.AssignStmt)
+		if isAssign {
+			for _, l := range as.Lhs {
+				if l == e || ast.Unparen(l) == e || isTotalsField(l) == f {
+					return false // the member's own assignment or update
+				}
+			}
+		}
+		// conditions (nil tests of the member) are not computations from it
+		if is, ok := stmt.(*ast.IfStmt); ok && is.Cond.Pos() <= e.Pos() && e.End() <= is.Cond.End() {
+			return false
+		}
+		n++
+		key := fmt.Sprintf("%s#%s-final-when-used@%s", fd.Name(), f.Name(), types.ExprString(ast.Unparen(e)))
+		if reported[key] {
+			return false
+		}
+		bad := lastWrite[f] > stmt.End()
+		if bad || !reported[key] {
+			reported[key] = true
+		}
+		c.Ob(rule, key, e.Pos(), !bad,
+			fmt.Sprintf("totals.%s is used at %s to compute something else and is given another value afterwards (at %s): what was computed from it no longer agrees with the %s that is presented", f.Name(), p.Rel(e.Pos()), p.Rel(lastWrite[f]), f.Name()))
+		return false
+	})
+	if n == 0 {
+		c.Ob(rule, "UNRESOLVED:totals-uses", token.NoPos, false, "no use of a totals member found in bill.calculate")
+	}
+}
+
+// c03RuleSelection — C03-R8: the rounding rule and the included-tax category the
+// tax calculator is given are the document's own settings whenever they are
+// set, independently of one another: `calculate` is evaluated up to the
+// calculator for a document without a tax object and for the four
+// combinations of rounding / prices-include being set; the rule must be the
+// document's when set and the regime's otherwise, the included category the
+// document's when set and empty otherwise.
+func c03RuleSelection(c *core.Ctx, rule string) {
+	p := c.P
+	fd := p.Func("bill", "", "calculate")
+	if fd == nil {
+		c.Ob(rule, "UNRESOLVED:bill.calculate", token.NoPos, false, "function not found")
+		return
+	}
+	info := fd.Pkg.TypesInfo
+	var lit *ast.CompositeLit
+	ast.Inspect(fd.Decl.Body, func(m ast.Node) bool {
+		if cl, ok := m.(*ast.CompositeLit); ok && litTypeIs(info, cl, "tax.TotalCalculator") {
+			lit = cl
+		}
+		return true
+	})
+	key := fd.Name() + "#rule-and-included-category"
+	if lit == nil {
+		c.Ob(rule, key, fd.Decl.Pos(), false, "NOT FOUND: no tax.TotalCalculator literal in bill.calculate")
+		return
+	}
+	var roundingV, includesV ast.Expr
+	for _, el := range lit.Elts {
+		if kv, ok := el.(*ast.KeyValueExpr); ok {
+			switch kv.Key.(*ast.Ident).Name {
+			case "Rounding":
+				roundingV = kv.Value
+			case "Includes":
+				includesV = kv.Value
+			}
+		}
+	}
+	idx := -1
+	for i, s := range fd.Decl.Body.List {
+		if s.Pos() <= lit.Pos() && lit.End() <= s.End() {
+			idx = i
+		}
+	}
+	if idx < 0 || roundingV == nil || includesV == nil {
+		c.Undecided(rule, key, lit.Pos(), "the calculator is not built at the top level of the function with both settings")
+		return
+	}
+	type scen struct {
+		name          string
+		hasTax        bool
+		rounding, pit bool
+	}
+	var bad []string
+	undecided := ""
+	for _, sc := range []scen{{"no tax object", false, false, false}, {"neither set", true, false, false}, {"rounding set", true, true, false}, {"prices_include set", true, false, true}, {"both set", true, true, true}} {
+		sc := sc
+		ev := &core.AbsEval{Info: info}
+		ev.UnknownIf = func(*ast.IfStmt) bool { return true }
+		ev.SkipLoop = func(ast.Stmt) bool { return true }
+		ev.Atom = func(e ast.Expr) (any, bool) {
+			e = ast.Unparen(e)
+			switch x := e.(type) {
+			case *ast.CallExpr:
+				if fn := core.Callee(info, x); fn != nil && len(x.Args) == 0 {
+					switch fn.Name() {
+					case "getTax":
+						if sc.hasTax {
+							return core.AbsPtr{Elem: "tax"}, true
+						}
+						return "nil", true
+					case "GetRoundingRule":
+						return "regime-rule", true
+					}
+				}
+			case *ast.SelectorExpr:
+				f := core.FieldOf(info, x)
+				if f == nil {
+					return nil, false
+				}
+				if owner := fieldOwner(info, x); owner == nil || core.TypeName(owner) != "bill.Tax" {
+					return nil, false
+				}
+				base, ok := ev.Eval(x.X)
+				if !ok || base != any(core.AbsPtr{Elem: "tax"}) {
+					return nil, false
+				}
+				switch f.Name() {
+				case "Rounding":
+					if sc.rounding {
+						return "document-rule", true
+					}
+					return "", true
+				case "PricesInclude":
+					if sc.pit {
+						return "document-category", true
+					}
+					return "", true
+				}
+			}
+			return nil, false
+		}
+		_, reached, ok := ev.RunList(fd.Decl.Body.List[:idx])
+		gotR, okR := ev.Eval(roundingV)
+		gotI, okI := ev.Eval(includesV)
+		if !ok || reached || !okR || !okI {
+			undecided = "the settings handed to the tax calculator could not be evaluated for a document with " + sc.name
+			break
+		}
+		wantR, wantI := "regime-rule", ""
+		if sc.hasTax && sc.rounding {
+			wantR = "document-rule"
+		}
+		if sc.hasTax && sc.pit {
+			wantI = "document-category"
+		}
+		if gotR != any(wantR) || gotI != any(wantI) {
+			bad = append(bad, fmt.Sprintf("with %s the calculator gets rule=%v included=%q (expected %v / %q)", sc.name, gotR, gotI, wantR, wantI))
+		}
+	}
+	if undecided != "" {
+		c.Undecided(rule, key, lit.Pos(), undecided)
+		return
+	}
+	c.Ob(rule, key, lit.Pos(), len(bad) == 0,
+		"the rounding rule / included category used are not the document's own settings in every combination: "+strings.Join(bad, "; "))
 }
